@@ -514,6 +514,7 @@ func (s *transactionStore) Watch(ctx context.Context, ch chan<- configapi.Transa
 			s.mu.Unlock()
 		}()
 
+		// The channel is closed here and nowhere else
 		defer close(ch)
 
 		if options.Replay {
@@ -562,7 +563,6 @@ func (s *transactionStore) Watch(ctx context.Context, ch chan<- configapi.Transa
 					transactions, err := s.getTransactions(ctx, *entry.Value)
 					if err != nil {
 						log.Error(err)
-						close(ch)
 						return
 					}
 
@@ -598,7 +598,6 @@ func (s *transactionStore) Watch(ctx context.Context, ch chan<- configapi.Transa
 			case event := <-eventCh:
 				ch <- event
 			case <-ctx.Done():
-				close(ch)
 				go func() {
 					for range eventCh {
 					}
